@@ -59,9 +59,9 @@ SPEC = {
             'all of these at once, or one aspect only per history, or "pinned" (some message of the newest report stays not-ready and no report '
             'ever lands: the same messages are offered again every cycle). The reader honours and records the (timestamp lower bound, limit) '
             'arguments of CommitReportsGTETimestamp. Two clocks: two thirds of the histories age the destination (unit 1 minute, interval '
-            '30..480 min: every report is presented with a timestamp relative to the real now); one third run on the REAL clock (unit 100 ms, '
+            '30..480 min: every report is presented with a timestamp relative to the real now); one third run on the REAL clock (unit 100 ms times the scheduling latency factor measured when the part starts, '
             'interval 0.5..1.2 s, absolute report timestamps, the harness sleeps to the scripted instants; a cycle that misses its slot because '
-            'the machine is overloaded discards the history - class discarded-timing - rather than judge it). Per cycle, judged in Coq against '
+            'the machine is overloaded is run again with the unit doubled, twice at most, and only then discarded - class discarded-timing - rather than judged). Per cycle, judged in Coq against '
             'the model evaluated on the destination\'s CURRENT content: reader arguments, pending after GetCommitReports, messages of the '
             'transmitted report (Plugin.Reports decoded), pending after Filter; and by the executable history property cyc_ok (interval '
             'arithmetic, independent of the model): lower bound = current clock - interval and limit = 1000 for every observing oracle, none when '
